@@ -357,6 +357,34 @@ func runC15(c *sim.Ctx) *sim.Violation {
 	// property section holds 33+ user properties of ~64 KiB each
 	if t.Bool(1, 150) {
 		typ := []byte{ref.PubAck, ref.Publish, ref.Disconnect, ref.ConnAck}[t.Int(4)]
+		if t.Bool(1, 3) {
+			// the WILL property length of a CONNECT in its three- and four-byte forms,
+			// written by the real encoder and read back strictly
+			w := &ref.Will{Topic: []byte("w"), Payload: []byte("p")}
+			g := gen.NewG(t, c.Thorough, 0)
+			n := 2 + t.Int(8)
+			if t.Bool(1, 4) {
+				n = 33 + t.Int(3) // the four-byte form
+			}
+			for i := 0; i < n; i++ {
+				w.Props = append(w.Props, ref.Prop{ID: 0x26, K: []byte("k"), V: g.Str(65535 - t.Int(3))})
+			}
+			ca := &ref.AP{Type: ref.Connect, ProtoName: []byte("MQTT"), ProtoVer: 5, ClientID: []byte("c"), ConnFlags: ref.CFWill, Will: w}
+			if p, _, err := buildGuard(ca, nil); err == nil {
+				b, werr, pi := encodeReal(p)
+				if werr != nil || pi != nil {
+					return sim.V("C15/public-api/will-property-length/write-failed", "CONNECT with %d will user properties of ~64 KiB: err=%v panic=%v", n, werr, pi)
+				}
+				d, derr := ref.Decode(b, false)
+				if derr != nil {
+					return sim.V("C15/public-api/will-property-length/frame-rejected", "CONNECT with %d will user properties of ~64 KiB (%d bytes): a strict reading says %v", n, len(b), derr)
+				}
+				if name, wv, gv := ref.FirstDiff(ca.Canon(), d.Canon()); name != "" {
+					return sim.V("C15/public-api/will-property-length/"+name, "%s want %q got %q", name, wv, gv)
+				}
+				c.Count("probe.will-property-length-in-the-3-or-4-byte-form")
+			}
+		}
 		a := &ref.AP{Type: typ, Flags: ref.ReservedFlags(typ), PacketID: 3, Form: 2}
 		if typ == ref.Publish {
 			a.Topic = []byte("t")
